@@ -135,7 +135,7 @@ void projection(vf::Ctx & c)
   LambertConverter cv = makeConverter(s);
   double lat = s.lat0 + dlat, lon = s.lon0 + dlon;
   Eigen::Vector2d P = fwd(cv, lat, lon);
-  c.check(P.allFinite(), vf::fmt("toLambert non-finite at lat=%.17g lon=%.17g", lat, lon));
+  VF_CHECK(c, P.allFinite(), "toLambert non-finite at lat=%.17g lon=%.17g", lat, lon);
 
   // (i) conformality at the point
   double km, kp, ca;
@@ -143,8 +143,8 @@ void projection(vf::Ctx & c)
   double conf = std::fabs(km / kp - 1.0);
   c.maxStat("conformality |km/kp-1|", conf);
   c.maxStat("orthogonality |cos|", std::fabs(ca));
-  c.check(conf <= 5e-9, vf::fmt("not conformal: meridian scale %.12g vs parallel scale %.12g at lat=%.9g dlon=%.9g", km, kp, lat, dlon));
-  c.check(std::fabs(ca) <= 5e-9, vf::fmt("images of meridian and parallel are not orthogonal: cos=%.3g", ca));
+  VF_CHECK(c, conf <= 5e-9, "not conformal: meridian scale %.12g vs parallel scale %.12g at lat=%.9g dlon=%.9g", km, kp, lat, dlon);
+  VF_CHECK(c, std::fabs(ca) <= 5e-9, "images of meridian and parallel are not orthogonal: cos=%.3g", ca);
 
   // (ii) true scale on the standard parallel(s)
   if (s.tangent) {
@@ -165,15 +165,15 @@ void projection(vf::Ctx & c)
   Eigen::Vector2d O = fwd(cv, s.lat0, s.lon0);
   double od = std::max(std::fabs(O.x() - s.x0), std::fabs(O.y() - s.y0));
   c.maxStat("origin-image-error[m]", od);
-  c.check(od <= 1e-7, vf::fmt("projection origin maps to (%.9f,%.9f), false origin is (%.9f,%.9f)", O.x(), O.y(), s.x0, s.y0));
+  VF_CHECK(c, od <= 1e-7, "projection origin maps to (%.9f,%.9f), false origin is (%.9f,%.9f)", O.x(), O.y(), s.x0, s.y0);
   Eigen::Vector2d Mer = fwd(cv, lat, s.lon0);
-  c.check(std::fabs(Mer.x() - s.x0) <= 1e-7, vf::fmt("central meridian maps to x=%.9f, expected x0=%.9f", Mer.x(), s.x0));
+  VF_CHECK(c, std::fabs(Mer.x() - s.x0) <= 1e-7, "central meridian maps to x=%.9f, expected x0=%.9f", Mer.x(), s.x0);
   // north is up on the central meridian (orientation): y increases with latitude
   Eigen::Vector2d Mer2 = fwd(cv, lat + 1e-4, s.lon0);
   c.check(Mer2.y() > Mer.y(), "y does not increase with latitude on the central meridian");
   // east is to the right
   if (std::fabs(dlon) > 1e-9) {
-    c.check((P.x() - s.x0) * dlon > 0, vf::fmt("point %.6g rad %s of the central meridian maps to x-x0=%.6g", std::fabs(dlon), dlon > 0 ? "east" : "west", P.x() - s.x0));
+    VF_CHECK(c, (P.x() - s.x0) * dlon > 0, "point %.6g rad %s of the central meridian maps to x-x0=%.6g", std::fabs(dlon), dlon > 0 ? "east" : "west", P.x() - s.x0);
   }
 
   // (v) inverse o forward
@@ -182,20 +182,20 @@ void projection(vf::Ctx & c)
   double el1 = std::fabs(back.latitude - lat), el2 = std::fabs(back.longitude - lon);
   c.maxStat("inverse-dlat[rad]", el1);
   c.maxStat("inverse-dlon[rad]", el2);
-  c.check(el1 <= 1e-11, vf::fmt("inverse latitude error %.3g rad (lat=%.17g)", el1, lat));
-  c.check(el2 <= 1e-11, vf::fmt("inverse longitude error %.3g rad (lon=%.17g lon0=%.17g)", el2, lon, s.lon0));
+  VF_CHECK(c, el1 <= 1e-11, "inverse latitude error %.3g rad (lat=%.17g)", el1, lat);
+  VF_CHECK(c, el2 <= 1e-11, "inverse longitude error %.3g rad (lon=%.17g lon0=%.17g)", el2, lon, s.lon0);
 
   // (vi) metamorphic: shifting lon and lon0 together; mirroring in the equator
   Setup sh = s; sh.lon0 = s.lon0 + shift;
   Eigen::Vector2d Ps = fwd(makeConverter(sh), lat, sh.lon0 + dlon);
   double dsh = (Ps - P).norm();
   c.maxStat("longitude-shift-invariance[m]", dsh);
-  c.check(dsh <= 1e-6, vf::fmt("image moved by %.3g m when lon and lon0 were shifted together", dsh));
+  VF_CHECK(c, dsh <= 1e-6, "image moved by %.3g m when lon and lon0 were shifted together", dsh);
   Setup mi = s; mi.lat0 = -s.lat0; mi.lat1 = -s.lat1; mi.lat2 = -s.lat2;
   Eigen::Vector2d Pm = fwd(makeConverter(mi), -lat, lon);
   double dmi = std::max(std::fabs(Pm.x() - P.x()), std::fabs((Pm.y() - s.y0) + (P.y() - s.y0)));
   c.maxStat("equator-mirror-symmetry[m]", dmi);
-  c.check(dmi <= 1e-6, vf::fmt("mirrored configuration is not the mirror image (%.3g m): (%.6f,%.6f) vs (%.6f,%.6f)", dmi, P.x(), P.y(), Pm.x(), Pm.y()));
+  VF_CHECK(c, dmi <= 1e-6, "mirrored configuration is not the mirror image (%.3g m): (%.6f,%.6f) vs (%.6f,%.6f)", dmi, P.x(), P.y(), Pm.x(), Pm.y());
 }
 
 const std::vector<vf::Sub> kSubs = {
